@@ -197,7 +197,7 @@ def find_replace_case(ctx, rng):
     for n in names:
         fs = [(f, 'string') for f in pool[:rng.randint(2, 4)]]
         resources.append({'name': n, 'fields': fs})
-        rows.append([{f: rng.choice(['abc', 'a.c', 'xyz', '2020-01', 'aaa', '']) for f, _ in fs}
+        rows.append([{f: rng.choice(['abc', 'a.c', 'xyz', '2020-01', 'aaa', '', None, 'None']) for f, _ in fs}
                      for _ in range(rng.choice([0, 1, 3]))])
     desc = canon.make_descriptor(resources)
     sel = S.gen_sel(rng, names, allow_bad=False)
@@ -224,12 +224,14 @@ def find_replace_case(ctx, rng):
             nr = dict(r)
             for fld in fields:
                 for p in fld['patterns']:
-                    nr[fld['name']] = re.sub(p['find'], p['replace'], str(nr[fld['name']]))
+                    if nr[fld['name']] is not None:     # a null has no text to search: it stays null
+                        nr[fld['name']] = re.sub(p['find'], p['replace'], str(nr[fld['name']]))
             exp.append(nr)
         want = [canon.norm_row(canon.enc_row(r)) for r in exp]
         have = [canon.norm_row(r) for r in got['rows']]
         if want != have:
-            rep.fail('find_replace:value', case, {'expected': want[:5], 'got': have[:5]})
+            nulls = any(r.get(fld['name']) is None for r in rw for fld in fields)
+            rep.fail('find_replace:value' + (':null-becomes-text' if nulls else ''), case, {'expected': want[:5], 'got': have[:5]})
         if [x['name'] for x in got['fields']] != [x for x, _ in resources[i]['fields']]:
             rep.fail('find_replace:schema-changed', case, {})
 
